@@ -23,6 +23,7 @@ class Ledger:
         self.samples = {}      # level -> list of (fine, coarse) raw terminal values, in simulation order
         self.events = []       # ("sim", level) / ("next_level", new_level) / ("precomp", level, n)
         self.variates = {}     # level -> list of tuples of raw numpy variates consumed per sample (RNG mode)
+        self.mids = {}         # level -> list of (fine, coarse) values at the intermediate date (laws with "mid" only)
 
     def count(self, level):
         return len(self.samples.get(level, []))
@@ -70,7 +71,7 @@ class ScriptedFine:
 class ScriptedCoupling:
     """law = dict(seed, base, m0, alpha, s0, beta, cost0, gamma, maturity); mode 'hash' or 'rng'."""
 
-    def __init__(self, ledger_key, law, df=1.0, mode="hash", max_samples=2_000_000, zero_cost_levels=()):
+    def __init__(self, ledger_key, law, df=1.0, mode="hash", max_samples=2_000_000, zero_cost_levels=(), max_level=None):
         from rpylib.process.process import ProcessRepresentation
 
         self.ledger_key = ledger_key
@@ -82,6 +83,7 @@ class ScriptedCoupling:
         self.max_samples = max_samples
         self.zero_cost_levels = tuple(zero_cost_levels)
         self.init_calls = 0
+        self.max_level = max_level  # harness budget: a run that simulates beyond this level is stopped (ledger kept)
 
     # ---- engine interface
     def initialisation(self, product, max_step_epsilon=None):
@@ -103,6 +105,8 @@ class ScriptedCoupling:
         n = led.count(level)
         if sum(len(v) for v in led.samples.values()) > self.max_samples:
             raise PassBudgetExceeded("sample budget")
+        if self.max_level is not None and level > self.max_level and led.count(level) > 0:
+            raise PassBudgetExceeded("level budget")
         law = self.law
         if self.mode == "hash":
             z1 = (_hash01(law["seed"], level, n, 0) - 0.5) * math.sqrt(12.0)
@@ -119,6 +123,14 @@ class ScriptedCoupling:
             fine = coarse  # fine and coarse payoffs coincide on every path of this level: correction exactly 0
         if level == 0:
             coarse = 0.0
+        if law.get("mid"):
+            # an intermediate date (path-dependent payoffs): fine and coarse differ there by several level spreads, so
+            # that one of the two paths crosses a barrier and the other does not on a fair share of the samples
+            z3 = (_hash01(law["seed"], level, n, 2) - 0.5) * math.sqrt(12.0)
+            z4 = (_hash01(law["seed"], level, n, 3) - 0.5) * math.sqrt(12.0)
+            mid_c = law["base"] + 1.5 * law["s_base"] * z3
+            mid_f = mid_c + (3.0 * sd_l + 0.3 * law["s_base"]) * z4
+            led.mids.setdefault(level, []).append((mid_f, mid_c))
         led.samples.setdefault(level, []).append((fine, coarse))
         if used is not None:
             led.variates.setdefault(level, []).append(used)
@@ -129,6 +141,10 @@ class ScriptedCoupling:
         from rpylib.montecarlo.path import StochasticJumpPath
 
         fine, _ = self._values(self.level)
+        if self.law.get("mid"):
+            mid_f, _ = LEDGERS[self.ledger_key].mids[self.level][-1]
+            times = np.array([0.0, 0.5 * self.law["maturity"], self.law["maturity"]])
+            return StochasticJumpPath(times, np.zeros(3), np.array([0.0, mid_f, fine]))
         times = np.array([0.0, self.law["maturity"]])
         return StochasticJumpPath(times, np.zeros(2), np.array([0.0, fine]))
 
@@ -136,6 +152,11 @@ class ScriptedCoupling:
         from rpylib.montecarlo.path import StochasticJumpPath
 
         fine, coarse = self._values(self.level)
+        if self.law.get("mid"):
+            mid_f, mid_c = LEDGERS[self.ledger_key].mids[self.level][-1]
+            times = np.array([0.0, 0.5 * self.law["maturity"], self.law["maturity"]])
+            jumps = np.array([[0.0, mid_f, fine], [0.0, mid_c, coarse]])
+            return StochasticJumpPath(times, np.zeros((2, 3)), jumps)
         times = np.array([0.0, self.law["maturity"]])
         jumps = np.array([[0.0, fine], [0.0, coarse]])
         return StochasticJumpPath(times, np.zeros((2, 2)), jumps)
